@@ -160,8 +160,22 @@ class Env:
         return self.Or(self.Not(a), b)
 
     # tolerant comparisons (exact in symbolic mode)
+    def _floor(self):
+        """magnitude floor of the replay tolerance: 1, or the largest input magnitude when ALL replay inputs are tiny
+        (data given in tiny units must not make every comparison pass trivially)"""
+        f = getattr(self, "_floor_cache", None)
+        if f is None:
+            m = 0.0
+            for v in self.inputs.values():
+                a = np.abs(np.asarray(v, dtype=float))
+                if a.size:
+                    m = max(m, float(a.max()))
+            f = m if 0.0 < m < 1.0 else 1.0
+            self._floor_cache = f
+        return f
+
     def tol(self, *xs):
-        m = 1.0
+        m = self._floor() if not self.symbolic else 1.0
         for x in _flat(list(xs)):
             try:
                 m = max(m, abs(float(x)))
